@@ -45,6 +45,87 @@ theorem accFill_ctr (ns : Nat) (k : AccKind) (w : PW) (s : AccSt) (x : HItem) :
   all_goals (try (split <;> simp <;> omega))
   all_goals simp
 
+theorem copyM_fst_ctr (ns : Nat) (c : Tok) (w : PW) :
+    ((copyM ns c).run w).1.ctr = w.ctr + 1 ∧ ((copyM ns c).run w).2 = (ns, w.ctr) := by simp
+theorem updM_fst_ctr (t : Tok) (f : Value → Value) (w : PW) : ((updM t f).run w).1.ctr = w.ctr := by simp
+
+/-- the loop of a multi-valued `compute()`: `k` new objects, one per value -/
+theorem yieldCopies_spec (ns : Nat) (c : Tok) (mk : Tok → M HItem)
+    (hmk : ∀ d w, ((mk d).run w).1 = w ∧ (((mk d).run w).2.cells = [] ∨ ((mk d).run w).2.cells = [d])) :
+    ∀ (k : Nat) (w : PW),
+      ((yieldCopies ns c mk k).run w).1.ctr = w.ctr + k ∧
+      (∀ t ∈ cellsOf ((yieldCopies ns c mk k).run w).2, InRange ns w.ctr (w.ctr + k) t) ∧
+      (cellsOf ((yieldCopies ns c mk k).run w).2).Nodup := by
+  intro k
+  induction k with
+  | zero => intro w; simp [yieldCopies, cellsOf]
+  | succ k ih =>
+    intro w
+    simp only [yieldCopies, M.bind_run, M.pure_run]
+    obtain ⟨c1, c2⟩ := copyM_fst_ctr ns c w
+    rw [c2]
+    generalize ((copyM ns c).run w).1 = w1 at c1
+    obtain ⟨m1, m2⟩ := hmk (ns, w.ctr) w1
+    rw [m1]
+    obtain ⟨i1, i2, i3⟩ := ih w1
+    refine ⟨by rw [i1, c1]; omega, ?_, ?_⟩
+    · intro t ht
+      rw [cellsOf_cons] at ht
+      rcases List.mem_append.mp ht with ht | ht
+      · rcases m2 with m2 | m2
+        · rw [m2] at ht; simp at ht
+        · rw [m2] at ht; simp at ht; subst ht; exact ⟨rfl, Nat.le_refl _, by simp⟩
+      · obtain ⟨g1, g2, g3⟩ := i2 t ht
+        exact ⟨g1, by omega, by omega⟩
+    · rw [cellsOf_cons, List.nodup_append]
+      refine ⟨?_, i3, ?_⟩
+      · rcases m2 with m2 | m2 <;> rw [m2] <;> simp
+      · intro a ha b hb hab
+        subst hab
+        obtain ⟨_, g2, _⟩ := i2 a hb
+        rcases m2 with m2 | m2
+        · rw [m2] at ha; simp at ha
+        · rw [m2] at ha; simp at ha; subst ha; simp at g2; omega
+
+theorem yieldCounts_spec (ns : Nat) (c : Tok) (count : Nat) :
+    ∀ (names : List String) (w : PW),
+      ((yieldCounts ns c count names).run w).1.ctr = w.ctr + names.length ∧
+      (∀ t ∈ cellsOf ((yieldCounts ns c count names).run w).2, InRange ns w.ctr (w.ctr + names.length) t) ∧
+      (cellsOf ((yieldCounts ns c count names).run w).2).Nodup := by
+  intro names
+  induction names with
+  | nil => intro w; simp [yieldCounts, cellsOf]
+  | cons name rest ih =>
+    intro w
+    simp only [yieldCounts, M.bind_run, M.pure_run]
+    obtain ⟨c1, c2⟩ := copyM_fst_ctr ns c w
+    rw [c2]
+    generalize ((copyM ns c).run w).1 = w1 at c1
+    have u1 := updM_fst_ctr (ns, w.ctr) (fun v => Value.dict (Lena.Flow.dictSet (ctxOf v) name (Value.int count))) w1
+    generalize ((updM (ns, w.ctr) (fun v => Value.dict (Lena.Flow.dictSet (ctxOf v) name (Value.int count)))).run w1).1 = w2 at u1
+    obtain ⟨i1, i2, i3⟩ := ih w2
+    refine ⟨by rw [i1, u1, c1]; simp; omega, ?_, ?_⟩
+    · intro t ht
+      rw [cellsOf_cons] at ht
+      rcases List.mem_append.mp ht with ht | ht
+      · simp [mkItem] at ht; subst ht; exact ⟨rfl, Nat.le_refl _, by simp⟩
+      · obtain ⟨g1, g2, g3⟩ := i2 t ht
+        exact ⟨g1, by omega, by simp only [List.length_cons]; omega⟩
+    · rw [cellsOf_cons, List.nodup_append]
+      refine ⟨by simp [mkItem], i3, ?_⟩
+      intro a ha b hb hab
+      subst hab
+      obtain ⟨_, g2, _⟩ := i2 a hb
+      simp [mkItem] at ha
+      subst ha
+      simp at g2; omega
+
+theorem maybeWithContext_run (d : Value) (c : Tok) (w : PW) :
+    ((maybeWithContext d c).run w).1 = w ∧
+    (((maybeWithContext d c).run w).2.cells = [] ∨ ((maybeWithContext d c).run w).2.cells = [c]) := by
+  simp only [maybeWithContext, M.bind_run, readM_run]
+  split <;> simp [mkItem]
+
 theorem accCompute_fresh (ns : Nat) (k : AccKind) (hk : k.fresh = true)
     (w : PW) (s : AccSt) :
     w.ctr ≤ ((accCompute ns k s).run w).1.ctr ∧
@@ -60,6 +141,59 @@ theorem accCompute_fresh (ns : Nat) (k : AccKind) (hk : k.fresh = true)
   | graph =>
     simp only [accCompute, M.bind_run, M.pure_run, copyM_run, updM_run, M.ite_run]
     split <;> simp [mkItem, cellsOf, InRange] <;> omega
+  | vecMulti k =>
+    simp only [accCompute, M.ite_run]
+    split
+    · simp [cellsOf]
+    · simp only [M.bind_run, M.pure_run]
+      generalize hw0 : (curTok ns s).run w = r0 at hc
+      obtain ⟨y1, y2, y3⟩ := yieldCopies_spec ns r0.2 (maybeWithContext (.str "vec"))
+        (fun d w => maybeWithContext_run _ d w) k r0.1
+      refine ⟨by rw [y1]; omega, ?_, y3⟩
+      intro t ht
+      obtain ⟨g1, g2, g3⟩ := y2 t ht
+      exact ⟨g1, by omega, by rw [y1]; exact g3⟩
+  | sibMulti var lo hi k =>
+    simp only [accCompute, M.bind_run, M.pure_run]
+    generalize hw0 : (curTok ns s).run w = r0 at hc
+    have u1 := updM_fst_ctr r0.2 (setVariable var) r0.1
+    generalize ((updM r0.2 (setVariable var)).run r0.1).1 = w1 at u1
+    obtain ⟨y1, y2, y3⟩ := yieldCopies_spec ns r0.2 (fun d => pure (mkItem (.str "hist") (some d)))
+      (fun d w => by simp [mkItem]) k w1
+    refine ⟨by rw [y1, u1]; omega, ?_, y3⟩
+    intro t ht
+    obtain ⟨g1, g2, g3⟩ := y2 t ht
+    exact ⟨g1, by omega, by rw [y1]; exact g3⟩
+  | meanCounts names =>
+    simp only [accCompute, M.ite_run]
+    split
+    · simp [cellsOf]
+    · simp only [M.bind_run, M.pure_run]
+      generalize hw0 : (curTok ns s).run w = r0 at hc
+      obtain ⟨c1, c2⟩ := copyM_fst_ctr ns r0.2 r0.1
+      rw [c2]
+      generalize ((copyM ns r0.2).run r0.1).1 = w1 at c1
+      obtain ⟨m1, m2⟩ := maybeWithContext_run (.quot s.total s.count) (ns, r0.1.ctr) w1
+      rw [m1]
+      obtain ⟨y1, y2, y3⟩ := yieldCounts_spec ns r0.2 s.count names w1
+      refine ⟨by rw [y1, c1]; omega, ?_, ?_⟩
+      · intro t ht
+        rw [cellsOf_cons] at ht
+        rcases List.mem_append.mp ht with ht | ht
+        · rcases m2 with m2 | m2
+          · rw [m2] at ht; simp at ht
+          · rw [m2] at ht; simp at ht; subst ht
+            exact ⟨rfl, hc.1, by rw [y1, c1]; simp; omega⟩
+        · obtain ⟨g1, g2, g3⟩ := y2 t ht
+          exact ⟨g1, by omega, by rw [y1]; exact g3⟩
+      · rw [cellsOf_cons, List.nodup_append]
+        refine ⟨by rcases m2 with m2 | m2 <;> rw [m2] <;> simp, y3, ?_⟩
+        intro a ha b hb hab
+        subst hab
+        obtain ⟨_, g2, _⟩ := y2 a hb
+        rcases m2 with m2 | m2
+        · rw [m2] at ha; simp at ha
+        · rw [m2] at ha; simp at ha; subst ha; simp at g2; omega
   | vecList =>
     simp only [accCompute, maybeWithContext, M.ite_run]
     split
@@ -308,6 +442,13 @@ theorem accFill_lc (hns : ∀ t, t.1 = ns → F t) (k : AccKind) (s : AccSt) (hs
     · exact LC.pure _ hs
     · exact LC.pure _ (refsIn_mk (some_inj_F hd) hs.group hs.groups)
   case vecList => exact LC.bind g (fun c hc => LC.pure _ (refsIn_mk (some_inj_F hc) hs.group hs.groups))
+  case vecMulti => exact LC.bind g (fun c hc => LC.pure _ (refsIn_mk (some_inj_F hc) hs.group hs.groups))
+  case meanCounts => exact LC.bind g (fun c hc => LC.pure _ (refsIn_mk (some_inj_F hc) hs.group hs.groups))
+  case sibMulti var lo hi k =>
+    refine LC.bind g (fun c hc => LC.bind (LC.copy hns c hc) (fun d hd => ?_))
+    split
+    · exact LC.pure _ hs
+    · exact LC.pure _ (refsIn_mk (some_inj_F hd) hs.group hs.groups)
   case graph => exact LC.bind g (fun c hc => LC.pure _ (refsIn_mk (some_inj_F hc) hs.group hs.groups))
   case groupBy key =>
     have hk : LC F (fun _ => True) (match x.ctxTok with
@@ -342,6 +483,34 @@ theorem accFill_lc (hns : ∀ t, t.1 = ns → F t) (k : AccKind) (s : AccSt) (hs
     rcases List.mem_append.mp ht with ht | ht
     · exact hs.group t ht
     · exact hx t (by simpa [cellsOf] using ht)
+
+theorem yieldCopies_lc (hns : ∀ t, t.1 = ns → F t) (c : Tok) (hc : F c) (mk : Tok → M HItem)
+    (hmk : ∀ d, F d → LC F (ItemIn F) (mk d)) : ∀ k, LC F (fun ys : List HItem => ∀ t ∈ cellsOf ys, F t) (yieldCopies ns c mk k) := by
+  intro k
+  induction k with
+  | zero => exact LC.pure _ (by intro t ht; simp [cellsOf] at ht)
+  | succ k ih =>
+    simp only [yieldCopies]
+    refine LC.bind (LC.copy hns c hc) (fun d hd => LC.bind (hmk d hd) (fun y hy => LC.bind ih (fun r hr => LC.pure _ ?_)))
+    intro t ht
+    rw [cellsOf_cons] at ht
+    rcases List.mem_append.mp ht with ht | ht
+    · exact hy t ht
+    · exact hr t ht
+
+theorem yieldCounts_lc (hns : ∀ t, t.1 = ns → F t) (c : Tok) (hc : F c) (count : Nat) :
+    ∀ names, LC F (fun ys : List HItem => ∀ t ∈ cellsOf ys, F t) (yieldCounts ns c count names) := by
+  intro names
+  induction names with
+  | nil => exact LC.pure _ (by intro t ht; simp [cellsOf] at ht)
+  | cons name rest ih =>
+    simp only [yieldCounts]
+    refine LC.bind (LC.copy hns c hc) (fun e he => LC.bind (LC.upd e he _) (fun _ _ => LC.bind ih (fun r hr => LC.pure _ ?_)))
+    intro t ht
+    rw [cellsOf_cons] at ht
+    rcases List.mem_append.mp ht with ht | ht
+    · exact mkItem_in (some_inj_F he) t ht
+    · exact hr t ht
 
 /-- what `compute`/`request` returns: a state and values that refer to objects of `F` only -/
 def CompIn (F : Tok → Prop) (r : AccSt × Resp Skel) : Prop := RefsIn F r.1 ∧ ∀ t ∈ cellsOf r.2.outs, F t
@@ -409,6 +578,26 @@ theorem accCompute_lc (hns : ∀ t, t.1 = ns → F t) (k : AccKind) (s : AccSt) 
         · exact hy t ht
         · exact mkItem_in (some_inj_F he) t ht
       · exact LC.pure _ (compIn_one (refsIn_mk (some_inj_F hc) hs.group hs.groups) hy)
+  case vecMulti k =>
+    split
+    · exact LC.pure _ (compIn_nil hs _)
+    · exact LC.bind g (fun c hc => LC.bind (yieldCopies_lc hns c hc _ (fun d hd => maybeWithContext_lc _ d hd) k)
+        (fun ys hys => LC.pure _ ⟨refsIn_mk (some_inj_F hc) hs.group hs.groups, hys⟩))
+  case sibMulti var lo hi k =>
+    exact LC.bind g (fun c hc => LC.bind (LC.upd c hc _) (fun _ _ =>
+      LC.bind (yieldCopies_lc hns c hc _ (fun d hd => LC.pure _ (mkItem_in (some_inj_F hd))) k)
+        (fun ys hys => LC.pure _ ⟨refsIn_mk (some_inj_F hc) hs.group hs.groups, hys⟩)))
+  case meanCounts names =>
+    split
+    · exact LC.pure _ (compIn_nil hs _)
+    · refine LC.bind g (fun c hc => LC.bind (LC.copy hns c hc) (fun d hd =>
+        LC.bind (maybeWithContext_lc _ d hd) (fun y hy => LC.bind (yieldCounts_lc hns c hc s.count names)
+          (fun r hr => LC.pure _ ⟨refsIn_mk (some_inj_F hc) hs.group hs.groups, ?_⟩))))
+      intro t ht
+      rw [cellsOf_cons] at ht
+      rcases List.mem_append.mp ht with ht | ht
+      · exact hy t ht
+      · exact hr t ht
   case store => exact LC.pure _ ⟨hs, hs.group⟩
   case keepLast =>
     refine LC.pure _ ⟨hs, ?_⟩
